@@ -434,6 +434,13 @@ pub fn run(tier: Tier) -> i32 {
     for n in [20usize, 21, 32, 33, 34, 40, 64, 100, 300] {
         big_song_case(n, &mut acc3, false);
     }
+    // modification dates in other RFC 3339 spellings (offsets, fractions): the value is what the server listed
+    for text in crate::props::c16::TIMESTAMP_SPELLINGS {
+        let fields: Vec<(String, String)> = vec![("file".into(), "m.flac".into()), ("Last-Modified".into(), text.to_string()), ("Title".into(), "t".into())];
+        let mut want = ASong { url: "m.flac".into(), last_modified: Some(text.to_string()), ..Default::default() };
+        want.tags.insert("Title".into(), vec!["t".into()]);
+        check_fields(&fields, &[want], &json!({"last_modified_text": text}), &mut acc3, false);
+    }
     // durations in other decimal spellings than MPD's %.3f (fewer / more fraction digits)
     for text in DURATION_SPELLINGS {
         let fields: Vec<(String, String)> = vec![("file".into(), "d.flac".into()), ("duration".into(), text.to_string()), ("Range".into(), format!("{text}-{text}"))];
@@ -473,7 +480,9 @@ pub fn run(tier: Tier) -> i32 {
     cov.set("listings", json!(acc.listings));
     cov.set("state_meaning", json!("states = distinct abstract listings; transitions = decodes by the real typed commands on frames parsed by the real parser"));
     cov.samples = vec![listing_json(&[pool[1].clone(), pool[7].clone(), pool[2].clone(), pool[9].clone()]), listing_json(&[Entry::Song { url: "s.flac".into(), lines: vec![1, 0, 10] }])];
-    finish(&ctx, cov, acc.viol)
+    let (mut cov, mut viol) = (cov, acc.viol);
+    second_build_pass(&ctx, &mut cov, &mut viol);
+    finish(&ctx, cov, viol)
 }
 
 pub fn replay(case: &Value) -> i32 {
@@ -510,6 +519,15 @@ pub fn replay(case: &Value) -> i32 {
         println!("replay C14: song with {n} tag lines");
         let mut acc = Acc::default();
         big_song_case((n as usize).min(100_000), &mut acc, true);
+        return if acc.viol.is_empty() { println!("replay: property holds on this case"); 0 } else { println!("replay: VIOLATION"); 1 };
+    }
+    if let Some(text) = case.get("last_modified_text").and_then(|v| v.as_str()) {
+        println!("replay C14: song with Last-Modified {text}");
+        let fields: Vec<(String, String)> = vec![("file".into(), "m.flac".into()), ("Last-Modified".into(), text.to_string()), ("Title".into(), "t".into())];
+        let mut want = ASong { url: "m.flac".into(), last_modified: Some(text.to_string()), ..Default::default() };
+        want.tags.insert("Title".into(), vec!["t".into()]);
+        let mut acc = Acc::default();
+        check_fields(&fields, &[want], case, &mut acc, true);
         return if acc.viol.is_empty() { println!("replay: property holds on this case"); 0 } else { println!("replay: VIOLATION"); 1 };
     }
     if let Some(text) = case.get("duration_text").and_then(|v| v.as_str()) {
